@@ -149,6 +149,9 @@ def write (nt aa : Alphabet) (g : Gencode) (addComment : Bool) : Option (List Na
 /-- C `isspace` in the C locale -/
 def isSpace (c : Nat) : Bool := c = 32 || (9 ≤ c && c ≤ 13)
 
+/-- the class `\\s` of esl_regexp.c: blank, `\\t`, `\\n`, `\\r`, `\\f` — NOT the vertical tab, which `isspace` accepts -/
+def isReSpace (c : Nat) : Bool := c = 32 || c = 9 || c = 10 || c = 13 || c = 12
+
 /-- lines of a memory buffer as `nextline()` cuts them: each keeps its terminating `\n` -/
 def splitLines : List Nat → List Nat → List (List Nat)
   | [], [] => []
@@ -164,7 +167,7 @@ def isDataLine (l : List Nat) : Bool :=
 /-- match `^\s*<kw>\s*=\s*(\S+)\s*$` where each keyword position offers its accepted characters;
     returns the submatch start column and the token -/
 def matchLine (kw : List (List Nat)) (line : List Nat) : Option (Nat × List Nat) :=
-  let n0 := (line.takeWhile isSpace).length
+  let n0 := (line.takeWhile isReSpace).length
   let r0 := line.drop n0
   let rec kwGo : List (List Nat) → List Nat → Option (List Nat)
     | [], r => some r
@@ -173,14 +176,14 @@ def matchLine (kw : List (List Nat)) (line : List Nat) : Option (Nat × List Nat
   match kwGo kw r0 with
   | none => none
   | some r1 =>
-    let n1 := (r1.takeWhile isSpace).length
+    let n1 := (r1.takeWhile isReSpace).length
     match r1.drop n1 with
     | 61 :: r2 =>
-      let n2 := (r2.takeWhile isSpace).length
+      let n2 := (r2.takeWhile isReSpace).length
       let r3 := r2.drop n2
-      let tok := r3.takeWhile (fun c => !isSpace c)
+      let tok := r3.takeWhile (fun c => !isReSpace c)
       if tok.isEmpty then none
-      else if (r3.drop tok.length).all isSpace then some (n0 + kw.length + n1 + 1 + n2, tok) else none
+      else if (r3.drop tok.length).all isReSpace then some (n0 + kw.length + n1 + 1 + n2, tok) else none
     | _ => none
 
 def kwAAs : List (List Nat) := [[65, 97], [65, 97], [115]]
@@ -291,6 +294,12 @@ structure Orf where
   frame : Nat          -- 1..6
   aa : List Nat        -- digital residues
   deriving DecidableEq, Repr
+
+/-- the description `esl_gencode_ProcessOrf` formats for a record (`esl_sq_FormatDesc`): the name is `orf<num>` -/
+def orfDesc (source desc : String) (o : Orf) : String :=
+  s!"source={source} coords={o.start}..{o.stop} length={o.aa.length} frame={o.frame} desc={desc}"
+
+def orfName (o : Orf) : String := s!"orf{o.num}"
 
 /-- growing ORF of one frame (`wrk->psq[f]`, `wrk->in_orf[f]`): residues most recent first -/
 structure FrameSt where
